@@ -50,20 +50,23 @@ func capsFromMask(mask int) []string {
 	return out
 }
 
-var replyAltNames = []string{"ok", "4yz", "5yz", "drop", "garbage-or-multiline", "ok-then-write-fails"}
+var replyAltNames = []string{"ok", "4yz", "5yz", "drop", "garbage-or-multiline", "ok-then-write-fails", "421-then-disconnect"}
 
 // stdScript answers every event through the chooser with the alphabet {default, 4yz, 5yz, drop}.
 func stdScript(c *vf.Chooser) func(s *refsmtp.Session, ev *refsmtp.Event, def refsmtp.Action) refsmtp.Action {
 	return stdScriptN(c, 4)
 }
 
-// stdScriptM is stdScript plus a fifth alternative: the success reply spread over several lines (RFC 5321 4.2.1).
+// stdScriptM is stdScript plus two alternatives: the success reply spread over several lines (RFC 5321 4.2.1) and
+// a 421 reply followed by a disconnect (RFC 5321 3.8).
 func stdScriptM(c *vf.Chooser) func(s *refsmtp.Session, ev *refsmtp.Event, def refsmtp.Action) refsmtp.Action {
-	base := stdScriptN(c, 5)
 	return func(s *refsmtp.Session, ev *refsmtp.Event, def refsmtp.Action) refsmtp.Action {
-		a := base(s, ev, def)
-		if a.Kind == refsmtp.ActRaw && def.Kind == refsmtp.ActReply {
-			// alternative 4 of the 5-way choice: multi-line version of the default reply
+		if def.Kind != refsmtp.ActReply {
+			return def
+		}
+		pick := c.Choose(ev.Pos(), 6)
+		switch pick {
+		case 4:
 			if ev.Verb == "EHLO" {
 				return def // the EHLO reply is multi-line anyway
 			}
@@ -72,8 +75,10 @@ func stdScriptM(c *vf.Chooser) func(s *refsmtp.Session, ev *refsmtp.Event, def r
 				txt = def.Text
 			}
 			return refsmtp.Action{Kind: refsmtp.ActReply, Code: def.Code, Text: append(append([]string{}, txt...), "second line of the same reply", "third line")}
+		case 5:
+			return replyAction(6, ev, def, nil)
 		}
-		return a
+		return replyAction(pick, ev, def, nil)
 	}
 }
 
@@ -88,42 +93,62 @@ func stdScriptB(c *vf.Chooser, n int, breakWrites func()) func(s *refsmtp.Sessio
 		if def.Kind != refsmtp.ActReply {
 			return def
 		}
-		switch c.Choose(ev.Pos(), n) {
-		case 5:
-			// the reply is fine, but the transport breaks for the client's next write
-			if breakWrites != nil {
-				breakWrites()
-			}
-			return def
-		case 4:
-			return refsmtp.Action{Kind: refsmtp.ActRaw, Raw: "garbage that is no SMTP reply\r\n"}
-		case 1:
-			code := 451
-			if ev.Verb == "GREETING" || ev.Verb == "QUIT" {
-				code = 421
-			} else if ev.Verb == "STARTTLS" {
-				code = 454
-			} else if ev.Verb == "AUTH" || ev.Verb == "AUTHRESP" {
-				code = 454
-			}
-			return refsmtp.Action{Kind: refsmtp.ActReply, Code: code}
-		case 2:
-			code := 550
-			if ev.Verb == "GREETING" {
-				code = 554
-			} else if ev.Verb == "EHLO" || ev.Verb == "HELO" {
-				code = 502
-			} else if ev.Verb == "AUTH" || ev.Verb == "AUTHRESP" {
-				code = 535
-			} else if ev.Verb == "DATA" {
-				code = 554
-			}
-			return refsmtp.Action{Kind: refsmtp.ActReply, Code: code}
-		case 3:
-			return refsmtp.Action{Kind: refsmtp.ActDrop}
+		return replyAction(c.Choose(ev.Pos(), n), ev, def, breakWrites)
+	}
+}
+
+// replyAction is the server's answer for one alternative of the reply alphabet (index into replyAltNames, where
+// 4 stands for the garbage reply).
+func replyAction(pick int, ev *refsmtp.Event, def refsmtp.Action, breakWrites func()) refsmtp.Action {
+	switch pick {
+	case 6:
+		// RFC 5321 3.8: the server announces that it closes the channel, and does
+		return refsmtp.Action{Kind: refsmtp.ActReplyThenDrop, Code: 421, Text: []string{"4.3.2 service shutting down, closing transmission channel"}}
+	case 5:
+		// the reply is fine, but the transport breaks for the client's next write
+		if breakWrites != nil {
+			breakWrites()
 		}
 		return def
+	case 4:
+		return refsmtp.Action{Kind: refsmtp.ActRaw, Raw: "garbage that is no SMTP reply\r\n"}
+	case 1:
+		code := 451
+		if ev.Verb == "GREETING" || ev.Verb == "QUIT" {
+			code = 421
+		} else if ev.Verb == "STARTTLS" {
+			code = 454
+		} else if ev.Verb == "AUTH" || ev.Verb == "AUTHRESP" {
+			code = 454
+		}
+		return refsmtp.Action{Kind: refsmtp.ActReply, Code: code}
+	case 2:
+		code := 550
+		if ev.Verb == "GREETING" {
+			code = 554
+		} else if ev.Verb == "EHLO" || ev.Verb == "HELO" {
+			code = 502
+		} else if ev.Verb == "AUTH" || ev.Verb == "AUTHRESP" {
+			code = 535
+		} else if ev.Verb == "DATA" {
+			code = 554
+		}
+		return refsmtp.Action{Kind: refsmtp.ActReply, Code: code}
+	case 3:
+		return refsmtp.Action{Kind: refsmtp.ActDrop}
 	}
+	return def
+}
+
+// describeReplyChoiceM names the alternatives of stdScriptM.
+func describeReplyChoiceM(label string, pick int) string {
+	switch pick {
+	case 4:
+		return label + "=ok(multi-line)"
+	case 5:
+		return label + "=421-then-disconnect"
+	}
+	return describeReplyChoice(label, pick)
 }
 
 func describeReplyChoice(label string, pick int) string {
@@ -451,7 +476,7 @@ func c04RunCase(r *vf.Run, cfg c04Cfg, bound, workers int) {
 		kase := c04Case{Cfg: cfg, Prefix: append([]int{}, c.Picks...)}
 		for i, k := range keys {
 			k := k
-			r.Violation(k, whats[i]+" — script: "+c.Describe(describeReplyChoice)+fmt.Sprintf(" cfg=%+v", cfg), kase, func() string {
+			r.Violation(k, whats[i]+" — script: "+c.Describe(describeReplyChoiceM)+fmt.Sprintf(" cfg=%+v", cfg), kase, func() string {
 				ks, _ := c04Exec(r, cfg, vf.NewChooser(kase.Prefix))
 				for _, x := range ks {
 					if x == k {
@@ -467,7 +492,7 @@ func c04RunCase(r *vf.Run, cfg c04Cfg, bound, workers int) {
 			r.Outcome("illegal")
 		}
 		if r.NSamples() < 4 && c.Deviations() == 2 {
-			r.Sample(map[string]interface{}{"cfg": cfg, "script": c.Describe(describeReplyChoice)})
+			r.Sample(map[string]interface{}{"cfg": cfg, "script": c.Describe(describeReplyChoiceM)})
 		}
 	})
 }
@@ -476,7 +501,7 @@ func init() {
 	vf.Register(&vf.Check{
 		ID: "C04", Title: "SMTP dialogue stays legal and in step under every reply script",
 		Run: func(r *vf.Run) {
-			r.SetRule("every reply script with at most k deviations from the all-success script (alphabet ok / 4yz / 5yz / drop / multi-line success reply at every command position incl. greeting, EHLO, STARTTLS, AUTH, NOOP, RSET, QUIT) × client configuration × advertised capability subset (another one after STARTTLS; and, as a history, the complementary one on an earlier connection of the same Client) × batch shape × number of Send calls; each execution runs the real Client against the reference SMTP automaton in lock-step; a case is distinct by (configuration, choice vector)")
+			r.SetRule("every reply script with at most k deviations from the all-success script (alphabet ok / 4yz / 5yz / drop / multi-line success reply / 421 followed by a disconnect at every command position incl. greeting, EHLO, STARTTLS, AUTH, NOOP, RSET, QUIT) × client configuration × advertised capability subset (another one after STARTTLS; and, as a history, the complementary one on an earlier connection of the same Client) × batch shape × number of Send calls; each execution runs the real Client against the reference SMTP automaton in lock-step; a case is distinct by (configuration, choice vector)")
 			r.Assume("server never offers PIPELINING", "transport writes succeed after the peer closed (bytes discarded) and the next read reports EOF",
 				"a reply is 'read' once its bytes left the connection (bufio may hold them)")
 			type job struct {
@@ -558,7 +583,7 @@ func init() {
 			c := vf.NewChooser(k.Prefix)
 			keys, whats := c04Exec(r, k.Cfg, c)
 			r.Eval(1, true)
-			fmt.Printf("  cfg=%+v script=%s\n", k.Cfg, c.Describe(describeReplyChoice))
+			fmt.Printf("  cfg=%+v script=%s\n", k.Cfg, c.Describe(describeReplyChoiceM))
 			for i, key := range keys {
 				fmt.Printf("  -> %s: %s\n", key, whats[i])
 				r.Violation(key, whats[i], k, nil)
